@@ -1,10 +1,34 @@
 # C15 Out-of-range requests are rejected and writes stay inside their target.
-from engine import Job
+import os, re
+from engine import Job, Infra, REPO
 LEVEL = 'other'
 TRUSTED = ['MPI-IO writes only what the filetype names']
 ASSUMPTIONS = ['order of NC_ESTRIDE against NC_EEDGE and of NC_ENEGATIVECNT against NC_EINVALCOORDS is not documented: either admitted']
 EXPLANATION = 'argument-check functions of the dispatcher under contract against the 128-bit request rule; strided edge clause bounded by operand width'
 VG = ['src/dispatchers/var_getput.m4']
+
+WAIT = 'src/drivers/ncmpio/ncmpio_wait.c'
+
+def off_len_header(ws):
+    # the segment type of ncmpio_wait.c is local to that file: extracted mechanically on every run
+    def gen():
+        txt = open(os.path.join(REPO, WAIT)).read()
+        m = re.search(r'^typedef struct \{\n(?:[^}]*\n)+?\} off_len;[ \t]*$', txt, re.M)
+        if not m:
+            raise Infra('extraction anchor "typedef struct { ... } off_len;" not found in ncmpio_wait.c')
+        d = os.path.join(ws.dir, 'offlen'); os.makedirs(d, exist_ok=True)
+        open(os.path.join(d, 'off_len_extracted.h'), 'w').write('/* extracted from %s */\n%s\n' % (WAIT, m.group(0)))
+        return d
+    return ws.once(('offlen',), gen)
+
+def merge_jobs(tier, ws, prop='C15'):
+    d = off_len_header(ws) if ws is not None else '/nonexistent'
+    return [Job('%s/merge_requests/requests%d' % (prop, nr), prop, [WAIT], 'C15_merge.c', enforce='ncmpio_wait.c:merge_requests',
+                defines=['-DNR=%d' % nr, '-I' + d], tu_defines=['-include', '/verif/stubs/aint_int.h'], rfp=True, unwind=nr + 2, kind='bounded', timeout=900, solver=['--sat-solver', 'cadical'],
+                canaries=['merged_into_one_segment', 'kept_apart', 'sorted_by_file_offset', 'overlap_split_because_buffers_not_adjacent', 'overlap_merged_because_buffers_line_up'],
+                bound='%d pending requests, each on a 1-D fixed-size variable of 1-byte elements; begins < 2^40, starts and counts < 2^30, buffer positions symbolic' % nr,
+                assumptions=['merge_requests: qsort, MPI_Get_address, are harness stubs with bodies; MPI_Aint_add/diff as integer arithmetic (stubs/aint_int.h); type off_len extracted from ncmpio_wait.c on every run'])
+            for nr in ([2] if tier == 'quick' else [2, 3])]
 
 def jobs(tier, ws):
     js = []
@@ -30,4 +54,19 @@ def jobs(tier, ws):
                       defines=['-DH_EEDGE', '-DENFORCE_check_EEDGE', '-DCLAUSE_STRIDED', '-DWIDTH_BOUND=%d' % w],
                       canaries=['noerr_strided', 'eedge_strided', 'noerr_plain'], unwind=2, kind='bounded',
                       bound='symbolic stride; count, stride < 2^%d, shape < 2^%d' % (w, 2 * w), timeout=900))
+    # the caller of the two leaf checks: per-dimension loop, NULL arguments, record dimension, precedence
+    for nd in ([1, 2] if tier == 'quick' else [1, 2, 3]):   # 3 dimensions: thorough only
+        js.append(Job('C15/check_start_count_stride/ndims%d' % nd, 'C15', VG, 'C15_scs.c', enforce='var_getput.c:check_start_count_stride',
+                      replace=['var_getput.c:check_EINVALCOORDS', 'var_getput.c:check_EEDGE'], defines=['-DND=%d' % nd], rfp=True,
+                      canaries=['accepted_strided', 'write_beyond_the_last_record_accepted', 'einvalcoords', 'eedge', 'enegativecnt', 'estride',
+                                'null_count_vara', 'null_count_var1', 'driver_error'],
+                      unwind=nd + 2, kind='bounded', bound='number of dimensions = %d (enumerated); start, count, stride, shape, record count, flags, API kind symbolic' % nd,
+                      timeout=300, solver=['--sat-solver', 'cadical'],
+                      assumptions=['check_EINVALCOORDS / check_EEDGE by their contracts (enforced by the other C15 jobs; strided clause of check_EEDGE verified for enumerated strides and width-bounded symbolic strides only)',
+                                   'driver inq_dim: stub handing back a non-negative record count or an error code']))
+    js += merge_jobs(tier, ws)
+    # the record-variable count that is_request_contiguous relies on to keep a multi-record request inside its own
+    # variable is recomputed by every enddef (seed C15_m3: stale count after redef writes through a neighbour's records)
+    import C03
+    js += [j for j in C03.jobs(tier, ws, prop='C15') if 'ncmpio__enddef' in j.name]
     return js
